@@ -20,20 +20,20 @@ type violation struct {
 
 // facts are derived from one execution; used for classification / non-trivial rules.
 type facts struct {
-	joePanicked           bool
+	joePanicked            bool
 	failAndCancelBeforeRet bool // some subscriber had an own failure AND a cancel before its Subscribe returned
-	retDuringFanout       bool
-	shutdownWhileParked   bool
-	concurrentShutdowns   bool
-	resumeNonTrivial      bool // C04: buffered non-newest ID with a matching publish on each side
-	resumeNewest          bool
-	resumeEvicted         bool
-	resumeInFlight        bool
-	multiSubPublish       bool // a publish reached >= 2 subscribers
-	failingAndHealthy     bool // C17
-	repFaultWithLaterPub  bool
-	wrapped               bool
-	classes               []string
+	retDuringFanout        bool
+	shutdownWhileParked    bool
+	concurrentShutdowns    bool
+	resumeNonTrivial       bool // C04: buffered non-newest ID with a matching publish on each side
+	resumeNewest           bool
+	resumeEvicted          bool
+	resumeInFlight         bool
+	multiSubPublish        bool // a publish reached >= 2 subscribers
+	failingAndHealthy      bool // C17
+	repFaultWithLaterPub   bool
+	wrapped                bool
+	classes                []string
 }
 
 func intersects(a, b []string) bool {
@@ -48,14 +48,14 @@ func intersects(a, b []string) bool {
 }
 
 type putInfo struct {
-	at     time.Duration
-	pos    int // index of the put record
-	ser    string
-	ok     bool // stored successfully
-	err    error
-	panic  bool
-	id     string
-	idSet  bool
+	at    time.Duration
+	pos   int // index of the put record
+	ser   string
+	ok    bool // stored successfully
+	err   error
+	panic bool
+	id    string
+	idSet bool
 }
 
 // check applies every rule of C03, C04, C06, C07 and C17 to one execution.
